@@ -9,6 +9,7 @@ import (
 	"pgregory.net/rapid"
 
 	"verifharness/gen"
+	"verifharness/iox"
 	"verifharness/stats"
 )
 
@@ -20,6 +21,7 @@ type C19Case struct {
 	Ops    []gen.Op    `json:"ops"`
 	Before *gen.Recipe `json:"before,omitempty"` // the Writer first compressed this (and was closed or abandoned), then Reset
 	Closed bool        `json:"closed,omitempty"`
+	FailAt int         `json:"fail_at,omitempty"` // the first use's destination fails at this call (0 = never)
 }
 
 var c19Dists = []int{4094, 4095, 4096, 4097, 4098, 32766, 32767, 32768, 32769, 32770, 65535, 65536, 65537, 2049, 3000, 4000, 8192, 8193, 16384, 20000, 30000, 40000}
@@ -92,6 +94,9 @@ func drawC19(t *rapid.T) C19Case {
 		b := gen.DrawRecipe(t, 80<<10)
 		c.Before = &b
 		c.Closed = rapid.Bool().Draw(t, "closedbefore")
+		if rapid.IntRange(0, 2).Draw(t, "failbefore") == 0 {
+			c.FailAt = rapid.IntRange(1, 6).Draw(t, "failat")
+		}
 	}
 	return c
 }
@@ -100,7 +105,7 @@ func checkC19(c C19Case) (labels []string, nontrivial bool, err error) {
 	data := c.Data.Bytes()
 	var z []byte
 	if c.Before != nil {
-		z, err = runWriterOpsReused(c.Set, c.Before.Bytes(), c.Closed, data, c.Ops)
+		z, err = runWriterOpsReused(c.Set, c.Before.Bytes(), c.Closed, c.FailAt, data, c.Ops)
 	} else {
 		z, err = runWriterOps(c.Set, data, c.Ops)
 	}
@@ -164,19 +169,20 @@ func init() {
 
 // runWriterOpsReused: the Writer first writes `before` (then Close or nothing), is Reset onto a
 // new destination and then runs ops + Close on data. Returns the bytes of the second stream.
-func runWriterOpsReused(set WSetting, before []byte, closeFirst bool, data []byte, ops []gen.Op) (z []byte, err error) {
+func runWriterOpsReused(set WSetting, before []byte, closeFirst bool, failAt int, data []byte, ops []gen.Op) (z []byte, err error) {
 	defer guardPanic(&err)
-	var first, dst bytes.Buffer
-	w, err := newFlateWriter(&first, set)
+	var dst bytes.Buffer
+	first := &iox.Sink{FailAt: failAt, FailErr: errInjected, Sticky: true}
+	w, err := newFlateWriter(first, set)
 	if err != nil {
 		return nil, err
 	}
 	guard := w.VerifGuard()
-	if _, e := w.Write(before); e != nil {
+	if _, e := w.Write(before); e != nil && failAt == 0 {
 		return nil, fmt.Errorf("first use: Write = %v", e)
 	}
 	if closeFirst {
-		if e := w.Close(); e != nil {
+		if e := w.Close(); e != nil && failAt == 0 {
 			return nil, fmt.Errorf("first use: Close = %v", e)
 		}
 	}
